@@ -59,6 +59,7 @@ statement; distinct = distinct hash of (kind, program, sources, environment or s
         ],
         stubbed: vec![
             "getrandom (hash keys per simulated thread)",
+            "clock_gettime (fast-forward monotonic clock for single-threaded runs)",
             "Rust global allocator of simulated threads (exact-size LIFO arena: freed addresses are reused at once)",
             "tree-sitter malloc/calloc/realloc/free (seeded layout policies)",
             "thread scheduler (cooperative, seeded)",
@@ -79,7 +80,7 @@ statement; distinct = distinct hash of (kind, program, sources, environment or s
             "probe.c.multi_worker_runs",
             "probe.e.old_text_reloaded",
         ],
-        fault_kinds: vec!["hash_keys", "layout", "heap_reuse", "trace_log", "sched", "cancel_at_k", "cancel_other", "exec_error"],
+        fault_kinds: vec!["hash_keys", "layout", "heap_reuse", "trace_log", "clock_fast_forward", "sched", "cancel_at_k", "cancel_other", "exec_error"],
     }
 }
 
@@ -92,6 +93,8 @@ static SINK: SinkLogger = SinkLogger;
 static LOGGED: std::sync::atomic::AtomicU64 = std::sync::atomic::AtomicU64::new(0);
 /// workers found blocked on a lock that a parked worker held (see sched.rs)
 static STALLS: std::sync::atomic::AtomicU64 = std::sync::atomic::AtomicU64::new(0);
+/// clock readings served by the fast-forward clock
+static CLOCK_READS: std::sync::atomic::AtomicU64 = std::sync::atomic::AtomicU64::new(0);
 
 impl log::Log for SinkLogger {
     fn enabled(&self, _m: &log::Metadata) -> bool {
@@ -125,14 +128,17 @@ pub struct Env {
     /// process log level while the run executes: false = off, true = trace (every `debug!` /
     /// `trace!` of the library is formatted into a sink)
     pub trace_log: bool,
+    /// the monotonic clock of the run's thread fast-forwards by up to 3 s per reading (a very
+    /// slow machine); only used for single-threaded runs (sub-check a)
+    pub fast_clock: bool,
 }
 
 impl Env {
     fn control() -> Env {
-        Env { hash_seed: CONTROL_HASH, policy: Policy::Compact, layout_seed: 0, lifo_heap: false, trace_log: false }
+        Env { hash_seed: CONTROL_HASH, policy: Policy::Compact, layout_seed: 0, lifo_heap: false, trace_log: false, fast_clock: false }
     }
     fn to_json(&self) -> J {
-        json!({"hash_seed": self.hash_seed, "layout": self.policy.name(), "layout_seed": self.layout_seed, "lifo_heap": self.lifo_heap, "trace_log": self.trace_log})
+        json!({"hash_seed": self.hash_seed, "layout": self.policy.name(), "layout_seed": self.layout_seed, "lifo_heap": self.lifo_heap, "trace_log": self.trace_log, "fast_clock": self.fast_clock})
     }
     fn from_json(j: &J) -> Env {
         Env {
@@ -141,6 +147,7 @@ impl Env {
             layout_seed: j["layout_seed"].as_u64().unwrap_or(0),
             lifo_heap: j["lifo_heap"].as_bool().unwrap_or(false),
             trace_log: j["trace_log"].as_bool().unwrap_or(false),
+            fast_clock: j["fast_clock"].as_bool().unwrap_or(false),
         }
     }
 }
@@ -204,7 +211,14 @@ fn load_exec(text: &str, source: &str, globs: &Globs, lazy: bool, cancel_at: Opt
     alloc::begin_run(env.policy, env.layout_seed);
     set_log_env(env);
     let (t, s, g) = (text.to_string(), source.to_string(), globs.clone());
-    entropy::with_thread_env(env.hash_seed, env.lifo_heap, move || load_exec_here(&t, &s, &g, lazy, cancel_at))
+    let fast = if env.fast_clock { Some(env.layout_seed | 1) } else { None };
+    entropy::with_thread_env(env.hash_seed, env.lifo_heap, move || {
+        entropy::set_thread_clock_fast(fast);
+        let r = load_exec_here(&t, &s, &g, lazy, cancel_at);
+        CLOCK_READS.fetch_add(entropy::thread_clock_reads(), std::sync::atomic::Ordering::Relaxed);
+        entropy::set_thread_clock_fast(None);
+        r
+    })
 }
 
 pub struct Found {
@@ -395,6 +409,7 @@ fn random_env(r: &mut Rng) -> Env {
         layout_seed: r.next(),
         lifo_heap: r.chance(1, 2),
         trace_log: r.chance(1, 3),
+        fast_clock: r.chance(1, 3),
     }
 }
 
@@ -1226,6 +1241,8 @@ pub fn run_shard(ctx: &ShardCtx, rep: &mut Report) {
                         rep.add("fault.hash_keys.fired", st.hash_classes.saturating_sub(1) as u64);
                         rep.add("fault.layout.configured", envs.len() as u64);
                         rep.add("fault.layout.fired", envs.iter().filter(|e| e.policy != Policy::Compact).count() as u64);
+                        rep.add("fault.clock_fast_forward.configured", envs.iter().filter(|e| e.fast_clock).count() as u64);
+                        rep.add("fault.clock_fast_forward.fired", CLOCK_READS.swap(0, std::sync::atomic::Ordering::Relaxed));
                         rep.add("fault.trace_log.configured", envs.iter().filter(|e| e.trace_log).count() as u64);
                         rep.add("fault.trace_log.fired", envs.iter().filter(|e| e.trace_log).count() as u64);
                         if st.discarded {
